@@ -42,18 +42,18 @@ type Unit struct {
 
 // RegEntry ties one schema struct to the Go type generated for it.
 type RegEntry struct {
-	Sidx    int
-	Found   bool
-	Pkg     string // import path, e.g. batch/u3/x/y/pa
-	File    string // generated file, relative to the module root
-	GoType  string
-	Ctor    string               // "NewX"
-	Getter  map[int16]string     // field id -> getter method name ("" if not found)
-	IsSet   map[int16]string     // field id -> IsSet method name
-	GoField map[int16]string     // field id -> Go field name
-	Tags    map[int16][2]string  // field id -> {name, requiredness word in the thrift tag}
-	Note    string               // why not found / ambiguity
-	TagErrors []string           // disagreements between the thrift struct tags and the schema (name, requiredness)
+	Sidx      int
+	Found     bool
+	Pkg       string // import path, e.g. batch/u3/x/y/pa
+	File      string // generated file, relative to the module root
+	GoType    string
+	Ctor      string              // "NewX"
+	Getter    map[int16]string    // field id -> getter method name ("" if not found)
+	IsSet     map[int16]string    // field id -> IsSet method name
+	GoField   map[int16]string    // field id -> Go field name
+	Tags      map[int16][2]string // field id -> {name, requiredness word in the thrift tag}
+	Note      string              // why not found / ambiguity
+	TagErrors []string            // disagreements between the thrift struct tags and the schema (name, requiredness)
 }
 
 // UnitInfo is what happened to one unit.
@@ -115,14 +115,14 @@ func (u *UnitInfo) SchemaLines() []string { return u.Schema.Lines(u.Key, u.PLine
 
 // Built is a compiled batch.
 type Built struct {
-	Dir         string // work dir
-	Bin         string // driver binary ("" if the build failed)
-	Thriftgo    string
-	Units       []UnitInfo
-	BuildOutput string // output of the last go build
+	Dir          string // work dir
+	Bin          string // driver binary ("" if the build failed)
+	Thriftgo     string
+	Units        []UnitInfo
+	BuildOutput  string   // output of the last go build
 	Unattributed []string // build output lines that belong to no unit (driver itself, module problems)
-	Timing      map[string]time.Duration
-	Rounds      int // number of go build invocations (failing units are dropped and the rest rebuilt)
+	Timing       map[string]time.Duration
+	Rounds       int // number of go build invocations (failing units are dropped and the rest rebuilt)
 }
 
 var goEnv = []string{"GOFLAGS=-mod=mod", "GOPROXY=off", "GOSUMDB=off", "GOTOOLCHAIN=local"}
